@@ -4,7 +4,7 @@
    read back by int(); the text contains no '/'.  (All about the model's
    restatement of the platform functions.)                                *)
 From Coq Require Import NArith ZArith List Bool Lia String.
-From V Require Import Base.UString Model.PatternEq.
+From V Require Import Base.UString Model.PatternEq Spec.PatternSemantics.
 Import ListNotations.
 Open Scope Z_scope.
 
@@ -168,9 +168,6 @@ Qed.
 (* ------------------------------------------------------------------ *)
 (* masking                                                             *)
 
-Definition addr4 (bs : list N) : N :=
-  match bs with [b0; b1; b2; b3] => (((b0 * 256 + b1) * 256 + b2) * 256 + b3)%N | _ => 0%N end.
-
 Lemma land_mask_check :
   forallb (fun b => forallb (fun n1 => (N.land b (Z.to_N ((2 ^ n1 - 1) * 2 ^ (8 - n1))) =? b / 2 ^ Z.to_N (8 - n1) * 2 ^ Z.to_N (8 - n1))%N)
                             [1; 2; 3; 4; 5; 6; 7]) bytes256 = true.
@@ -330,26 +327,6 @@ Qed.
 
 (* ------------------------------------------------------------------ *)
 (* the network an IPv4 CIDR string denotes, and its preservation       *)
-
-(* (address as a 32-bit number with the host bits cleared, prefix length); the platform's
-   inet_aton and int() as restated in the model decide what is an address and a prefix *)
-Definition ipv4_net_of (s : ustring) : option (N * N) :=
-  let ip := match find_cp 47%N s with Some (a, _) => a | None => s end in
-  let suffix := match find_cp 47%N s with Some (_, t) => Some t | None => None end in
-  match inet_aton ip with
-  | AtonOk bs =>
-    match suffix with
-    | None => Some (addr4 bs, 32%N)
-    | Some t =>
-      match py_int t with
-      | Some n => if (0 <=? n) && (n <=? 32)
-                  then Some ((addr4 bs / 2 ^ Z.to_N (32 - n) * 2 ^ Z.to_N (32 - n))%N, Z.to_N n)
-                  else None
-      | None => None
-      end
-    end
-  | _ => None
-  end.
 
 Lemma ipv4_net_plain : forall b0 b1 b2 b3,
     (b0 < 256)%N -> (b1 < 256)%N -> (b2 < 256)%N -> (b3 < 256)%N ->
